@@ -295,6 +295,34 @@ def extra_checks(rng, tier, workdir):
            T.DoubleType(), T.DateType(), T.TimestampType(), T.DecimalType(10, 2), T.BinaryType()]
     samples = [1, 1, 1, 1, True, '1', 1.5, 1.5, _dt.date(2020, 1, 1), _dt.datetime(2020, 1, 1), _dec.Decimal('1.5'),
                bytearray(b'a')]
+    # casting to the same type is the identity -- for every data type, also those outside the Coq model
+    ident = [
+        (T.DecimalType(10, 2), [_dec.Decimal('1.10'), _dec.Decimal('-0.05'), _dec.Decimal('12345678.90'), 1.5, None]),
+        (T.DecimalType(10, 0), [_dec.Decimal('7'), _dec.Decimal('-3'), None]),
+        (T.DecimalType(38, 18), [_dec.Decimal('12345678901234567890.123456789012345678'), None]),
+        (T.TimestampType(), [_dt.datetime(2020, 1, 2, 3, 4, 5), _dt.datetime(1970, 1, 1), None]),
+        (T.DateType(), [_dt.date(2020, 2, 29), _dt.date(1, 1, 1), None]),
+        (T.BinaryType(), [bytearray(b''), bytearray(b'ab\x00'), None]),
+        (T.ArrayType(T.IntegerType()), [[], [1, None, 3], None]),
+        (T.MapType(T.StringType(), T.IntegerType()), [{}, {'a': 1, 'b': None}, None]),
+        (T.StructType([T.StructField('a', T.IntegerType()), T.StructField('b', T.StringType())]),
+         [T.Row(a=1, b='x'), T.Row(a=None, b=None), None]),
+        (T.ByteType(), [0, 127, -128, None]), (T.ShortType(), [32767, None]), (T.IntegerType(), [-2 ** 31, None]),
+        (T.LongType(), [2 ** 63 - 1, None]), (T.FloatType(), [1.5, float('inf'), None]),
+        (T.DoubleType(), [-0.0, 1e308, None]), (T.BooleanType(), [True, False, None]),
+        (T.StringType(), ['', 'abc', ' 12 ', None]), (T.NullType(), [None]),
+    ]
+    for ty_, values in ident:
+        for v in values:
+            try:
+                r = casts.get_caster(ty_, ty_, {})(v)
+                ok = (r is v) or (type(r) is type(v) and r == v and repr(r) == repr(v))
+                got = repr(r)
+            except Exception as e:  # pylint: disable=broad-except
+                ok, got = False, 'raised ' + type(e).__name__
+            if not ok:
+                yield (f'get_caster:identity:{type(ty_).__name__}', f'cast of {v!r} from {ty_} to the same type',
+                       f'gave {got}', None)
     for ft, sv in zip(tys, samples):
         for tt in tys:
             try:
